@@ -246,7 +246,9 @@ class C17(Prop):
             "protocols": st.sampled_from([[], [], ["chat"], ["chat", "superchat"]]),
             "agent": st.sampled_from([None, None, "verif-agent/1.0"])}))])
         return st.fixed_dictionaries({"A": st.lists(a, min_size=1, max_size=4), "B": b, "deflate": gen.deflate_opt(),
-                                      "proxy": proxy, "app": app})
+                                      "proxy": proxy, "app": app,
+                                      # the whole chain over TLS
+                                      "tls": gen.weighted([(4, st.just(False)), (1, st.just(True))])})
 
     def enumerations(self, tier):
         def pairs():
@@ -308,6 +310,8 @@ class C17(Prop):
                     for deflate in (False, True):
                         yield {"A": [{"kind": kind, "frac": 500, "msgs": prev, "end": "eof"}], "B": dict(b0, deflate=deflate),
                                "deflate": deflate, "app": app}
+                        yield {"A": [{"kind": kind, "frac": 500, "msgs": prev, "end": "reset"}], "B": dict(b0, deflate=deflate),
+                               "deflate": deflate, "app": app, "tls": True}
                         yield {"A": [{"kind": kind, "frac": 500, "msgs": prev, "end": "eof"},
                                      {"kind": "server_close", "frac": 500, "msgs": prev, "end": "reset"}],
                                "B": dict(b0, deflate=deflate), "deflate": deflate, "app": app}
@@ -350,8 +354,9 @@ class C17(Prop):
             chainB = dict(attB)
             if released is not None:
                 chainB["release_held"] = released
-        chain = {"url": build.URL, "attempts": atts + [chainB], "keys": keys}
-        fresh = {"url": build.URL, "attempts": [attB], "keys": [keys[0], keys[n + 1]]}
+        url = "wss://example.test/" if case.get("tls") else build.URL
+        chain = {"url": url, "attempts": atts + [chainB], "keys": keys}
+        fresh = {"url": url, "attempts": [attB], "keys": [keys[0], keys[n + 1]]}
         if ws_opts:
             chain["ws_opts"] = ws_opts
             fresh["ws_opts"] = ws_opts
